@@ -26,7 +26,7 @@ func (d *D) String() string {
 	case 'L':
 		return fmt.Sprintf("#%d", d.ID)
 	case 'I':
-		return fmt.Sprintf("i:#%d", d.ID)
+		return "i:" + d.Sub.String()
 	case 'N':
 		return "nil"
 	case 'E':
@@ -86,9 +86,9 @@ func parseD(s string) (*D, string, error) {
 	case strings.HasPrefix(s, "#"):
 		n, rest, err := parseInt(s[1:])
 		return &D{K: 'L', ID: n}, rest, err
-	case strings.HasPrefix(s, "i:#"):
-		n, rest, err := parseInt(s[3:])
-		return &D{K: 'I', ID: n}, rest, err
+	case strings.HasPrefix(s, "i:"):
+		sub, rest, err := parseD(s[2:])
+		return &D{K: 'I', Sub: sub}, rest, err
 	case strings.HasPrefix(s, "nil"):
 		return &D{K: 'N'}, s[3:], nil
 	case strings.HasPrefix(s, "[]"):
@@ -177,10 +177,12 @@ func (u *PtrUnifier) Match(exp, obs *D) error {
 		return fmt.Errorf("expected %s, observed %s", exp, obs)
 	}
 	switch exp.K {
-	case 'L', 'I':
+	case 'L':
 		if exp.ID != obs.ID {
 			return fmt.Errorf("expected %s, observed %s", exp, obs)
 		}
+	case 'I':
+		return u.Match(exp.Sub, obs.Sub)
 	case 'P':
 		if err := u.Match(exp.Sub, obs.Sub); err != nil {
 			return err
@@ -222,7 +224,7 @@ func mintD(t *Type, id int, src string) *D {
 	case KLeaf, KInt, KBasic:
 		return &D{K: 'L', ID: id}
 	case KIface:
-		return &D{K: 'I', ID: id}
+		return &D{K: 'I', Sub: &D{K: 'L', ID: id}}
 	case KAgg:
 		d := &D{K: 'A'}
 		for _, f := range t.Fields {
@@ -364,10 +366,10 @@ func Implements(c, iface *Type) bool {
 	var leaf *Type
 	ptr := false
 	switch c.Kind {
-	case KLeaf:
+	case KLeaf, KAgg:
 		leaf = c
 	case KPtr:
-		if e := c.Elem.Strip(); e.Kind == KLeaf {
+		if e := c.Elem.Strip(); e.Kind == KLeaf || e.Kind == KAgg {
 			leaf, ptr = e, true
 		}
 	case KIface:
@@ -416,6 +418,9 @@ func itemReasons(it *Item) []Reason {
 	var rs []Reason
 	switch it.Kind {
 	case IFunc:
+		if it.Fn.Illegal {
+			rs = append(rs, Reason{"bad-sig", it.Fn.Name})
+		}
 		seen := map[string]bool{}
 		for _, p := range it.Fn.Params {
 			if seen[p.Key()] {
@@ -494,7 +499,7 @@ func (m *Model) Analyze(items []*Item, params []Param) (*PMap, []Reason) {
 	for _, it := range items {
 		switch it.Kind {
 		case IFunc:
-			if it.Fn.RawSig != "" {
+			if it.Fn.Illegal || it.Fn.Out == nil {
 				continue
 			}
 			pm.add(&Entry{T: it.Fn.Out, Kind: SFunc, Item: it, Fn: it.Fn, Direct: it}, &reasons)
